@@ -191,6 +191,9 @@ def wind_list(rng: random.Random, kind: str) -> List[List[float]]:
         return [[rng.choice([15.0, 50.0, 88.0]), rng.choice([180.0, 175.0]), 1e8]]
     if kind == "cross":
         return [[rng.choice([7.3, 30.0, 88.0]), rng.choice([90.0, 270.0, 45.0]), 1e8]]
+    if kind == "lone":
+        # ONE wind that ends inside the range: calm beyond it (the list has a single element, its end still counts)
+        return [[rng.choice([20.0, 45.0, 80.0]), rng.choice([90.0, 0.0, 180.0, 250.0]), rng.choice([40.0, 150.0, 300.0, 0.0])]]
     n = rng.choice([2, 3, 4])
     out = []
     for _ in range(n):
